@@ -103,6 +103,19 @@ def random_closed(n, rng):
             return succ
 
 
+def random_closed3(n, rng):
+    """closed CFG in which blocks may have three ordered distinct successors (multi-way branches)"""
+    while True:
+        succ = []
+        for i in range(n):
+            k = rng.choice([0, 1, 1, 2, 2, 3, 3])
+            c = list(range(n))
+            rng.shuffle(c)
+            succ.append(tuple(c[:k]))
+        if is_closed(succ) and any(len(s) == 3 for s in succ):
+            return succ
+
+
 def nontrivial(g0):
     """a cycle or a block with two successors."""
     if any(len(v) > 1 for v in g0.values()):
@@ -220,7 +233,7 @@ def check_graph(g0, payload='plain', props=PROPS):
             except Exception as e:
                 fails.append({'prop': prop, 'stage': stage, 'kind': 'check-crash:' + type(e).__name__,
                               'detail': [traceback.format_exc()[-300:]]})
-    return fails
+    return [f for f in fails if f['prop'] in props or f['prop'] == 'C14']
 
 
 def work_chunk(args):
@@ -253,8 +266,11 @@ def work_random(args):
     rng = random.Random(seed * 1000003 + n)
     out = {'closed': 0, 'nontrivial': 0, 'fails': [], 'samples': []}
     seen = set()
+    three = payload == 'plain3'
+    if three:
+        payload = 'plain'
     for _ in range(count):
-        succ = random_closed(n, rng)
+        succ = random_closed3(n, rng) if three else random_closed(n, rng)
         g0 = to_named(succ)
         key = tuple(sorted(g0.items()))
         if key in seen:
@@ -264,7 +280,11 @@ def work_random(args):
         out['nontrivial'] += 1 if nontrivial(g0) else 0
         if len(out['samples']) < 1:
             out['samples'].append(g0)
-        for f in check_graph(g0, payload):
+        # multi-way input blocks are outside the domain of C01/C02/C04-C06 (no front end produces them); they are
+        # used for C03 only: whenever restructuring completes on them the result must be structured
+        for f in (check_graph(g0, payload, props=('C03',)) if three else check_graph(g0, payload)):
+            if three and f['prop'] != 'C03':
+                continue
             f['graph'] = g0
             f['n'] = n
             f['idx'] = None
